@@ -1119,6 +1119,10 @@ fn directed_cases(thorough: bool) -> Vec<Case> {
 
 // ------------------------------------------------------------------ running a case
 
+/// fall-back token part: the error's VARIANT name (first identifier of its Debug rendering), never its text
+fn evar<T: std::fmt::Debug>(e: &T) -> String {
+    format!("{e:?}").chars().take_while(|c| c.is_alphanumeric() || *c == '_').collect()
+}
 fn err_class(e: &RelationalError) -> &'static str {
     match e {
         RelationalError::NullNotAllowed(_) => "null_not_allowed",
@@ -1896,7 +1900,8 @@ fn run_case(case: &Case, rep: &mut Report, m: &mut Model, text_budget: &mut u64)
                                     let imp = match &got {
                                         Ok(ids) if strategy == "count" => ids[0].to_string(),
                                         Ok(ids) => show_ids(ids),
-                                        Err(e) => format!("error {e}"),
+                                        // (an Err is flagged above and never reaches this comparison; no message text in a compared token)
+                                        Err(_) => "error".to_string(),
                                     };
                                     rep.compare(&mstream, || json!({"case": input(), "line": line}), &imp, &ans);
                                 } else {
@@ -1930,10 +1935,10 @@ fn run_case(case: &Case, rep: &mut Report, m: &mut Model, text_budget: &mut u64)
                             Ok(n) => format!("ok {n}"),
                             Err(er) => format!("err {}", err_class(&er)),
                         },
-                        sum: e.sum("t", &aname, ec.clone()).map_or_else(|er| format!("error {er}"), |x| tok(&Value::Float(x))),
-                        avg: e.avg("t", &aname, ec.clone()).map_or_else(|er| format!("error {er}"), |x| x.map_or("none".to_string(), |x| tok(&Value::Float(x)))),
-                        min: e.min("t", &aname, ec.clone()).map_or_else(|er| format!("error {er}"), |x| x.map_or("none".to_string(), |x| tok(&x))),
-                        max: e.max("t", &aname, ec.clone()).map_or_else(|er| format!("error {er}"), |x| x.map_or("none".to_string(), |x| tok(&x))),
+                        sum: e.sum("t", &aname, ec.clone()).map_or_else(|er| format!("error:{}", evar(&er)), |x| tok(&Value::Float(x))),
+                        avg: e.avg("t", &aname, ec.clone()).map_or_else(|er| format!("error:{}", evar(&er)), |x| x.map_or("none".to_string(), |x| tok(&Value::Float(x)))),
+                        min: e.min("t", &aname, ec.clone()).map_or_else(|er| format!("error:{}", evar(&er)), |x| x.map_or("none".to_string(), |x| tok(&x))),
+                        max: e.max("t", &aname, ec.clone()).map_or_else(|er| format!("error:{}", evar(&er)), |x| x.map_or("none".to_string(), |x| tok(&x))),
                     };
                     rep.case(&format!("agg.{ename}"), None);
                     rep.hit(&format!("agg.col.{}", match acol { ColSel::Col(_) => "schema", ColSel::Id => "_id", ColSel::Unknown => "unknown" }));
@@ -2193,7 +2198,8 @@ fn depth_rows(rep: &mut Report, m: &mut Model, r: &mut Rng, n: usize) {
         let imp = match &got {
             Ok(b) => format!("ok {}", u8::from(*b)),
             Err(RelationalError::ConditionTooDeep { .. }) => "err too_deep".to_string(),
-            Err(e) => format!("error {e}"),
+            // fall-back: the variant's name, never its message text (BUILDING.md "Error canonicalisation")
+            Err(e) => format!("error:{}", evar(e)),
         };
         let line = format!("evald {mx} {d} {id} 2 {} {}", vals.iter().map(tok).collect::<Vec<_>>().join(" "), to_model(&c));
         let ma = m.ask(&line);
@@ -2252,7 +2258,7 @@ fn depth_engine(rep: &mut Report, m: &mut Model, r: &mut Rng, n_cases: usize) {
                 match res {
                     Ok(rows) => (show_ids(&row_ids(&rows)), Some(row_ids(&rows))),
                     Err(er) if too_deep(&er) => ("err too_deep".to_string(), None),
-                    Err(er) => (format!("error {er}"), None),
+                    Err(er) => (format!("error:{}", evar(&er)), None),
                 }
             };
             // (operation name, model line, engine answer, rows the oracle expects when the answer is Ok)
@@ -2265,7 +2271,7 @@ fn depth_engine(rep: &mut Report, m: &mut Model, r: &mut Rng, n_cases: usize) {
                     let (a, i) = match e.count("t", ec) {
                         Ok(n) => (n.to_string(), Some(vec![n])),
                         Err(er) if too_deep(&er) => ("err too_deep".to_string(), None),
-                        Err(er) => (format!("error {er}"), None),
+                        Err(er) => (format!("error:{}", evar(&er)), None),
                     };
                     ("count", format!("qd {mx} count {cm}"), a, i, vec![want.len() as u64])
                 },
@@ -2282,7 +2288,7 @@ fn depth_engine(rep: &mut Report, m: &mut Model, r: &mut Rng, n_cases: usize) {
                     let a = match &res {
                         Ok(n) => format!("ok {n}"),
                         Err(er) if too_deep(er) => "err too_deep".to_string(),
-                        Err(er) => format!("error {er}"),
+                        Err(er) => format!("error:{}", evar(&er)),
                     };
                     let after = image_or_empty(&e);
                     let expect: Img = if res.is_ok() { img.iter().filter(|(id, _)| !want.contains(id)).cloned().collect() } else { img.clone() };
@@ -2297,7 +2303,7 @@ fn depth_engine(rep: &mut Report, m: &mut Model, r: &mut Rng, n_cases: usize) {
                     let a = match &res {
                         Ok(n) => format!("ok {n}"),
                         Err(er) if too_deep(er) => "err too_deep".to_string(),
-                        Err(er) => format!("error {er}"),
+                        Err(er) => format!("error:{}", evar(&er)),
                     };
                     let after = image_or_empty(&e);
                     let mut expect = img.clone();
